@@ -29,9 +29,9 @@ type CaseSpec struct {
 	Pred       int  `json:"pred"`       // 0 nil, 1 AnyError, 2 Error(exact), 3 ErrorHasPrefix, 4 ErrorHasSuffix, 5 ErrorMatch(valid), 6 ErrorMatch(invalid pattern)
 	PredHit    bool `json:"pred_hit"`   // predicate text chosen to match (true) or to miss (false) the scripted error text
 	MOut       int  `json:"m_out"`      // marshal: 0 right data, 1 wrong data, 2 nil data
-	MErr       int  `json:"m_err"`      // marshal: 0 no error, 1 error, 2 panic
+	MErr       int  `json:"m_err"`      // marshal: 0 no error, 1 error, 2 panic, 3 an error value that is a nil pointer of an error type
 	UStore     int  `json:"u_store"`    // unmarshal: 0 stores the expected value, 1 stores a different value, 2 stores nothing
-	UErr       int  `json:"u_err"`      // unmarshal: 0 no error, 1 error, 2 panic (after storing)
+	UErr       int  `json:"u_err"`      // unmarshal: 0 no error, 1 error, 2 panic (after storing), 3 nil-pointer error value
 	NilValue   bool `json:"nil_value"`  // pointer type only: the case's Value is a nil pointer
 	EmptyData  bool `json:"empty_data"` // OnlyMarshal cases only: the expected Data is empty (the marshaler returns nil or an empty slice)
 }
@@ -188,6 +188,26 @@ func (s *PRecv) UnmarshalBinary(b []byte) error {
 }
 func (s *PRecv) UnmarshalJSON(b []byte) error {
 	return doUnmarshal(b, func(t int, p string) { s.Tag, s.Payload = t, p })
+}
+
+// Both is an interface type used as T: the case values are *SP pointers held in the interface.
+type Both interface {
+	MarshalText() ([]byte, error)
+	MarshalBinary() ([]byte, error)
+	MarshalJSON() ([]byte, error)
+	UnmarshalText([]byte) error
+	UnmarshalBinary([]byte) error
+	UnmarshalJSON([]byte) error
+}
+
+// nilErr is an error type whose nil pointer is a perfectly good (non-nil) error value.
+type nilErr struct{ text string }
+
+func (e *nilErr) Error() string {
+	if e == nil {
+		return "typed nil error"
+	}
+	return e.text
 }
 
 // ---- recording TestingT and a well-behaved custom TypeHelper --------------------------------------------------------
@@ -354,6 +374,8 @@ func errOf(cs CaseSpec, marshal bool, tag int) errInfo {
 			return errInfo{isErr: true, exact: "boom 100%s " + t, prefix: "boom 100%s " + t}
 		case cs.MErr == 2:
 			return errInfo{isErr: true, prefix: "panic: pboom 100%d %v " + t + "\n"}
+		case cs.MErr == 3:
+			return errInfo{isErr: true, exact: "typed nil error", prefix: "typed nil error"}
 		}
 		return errInfo{}
 	}
@@ -366,6 +388,8 @@ func errOf(cs CaseSpec, marshal bool, tag int) errInfo {
 		return errInfo{isErr: true, exact: "uboom %!x " + t, prefix: "uboom %!x " + t}
 	case 2:
 		return errInfo{isErr: true, prefix: "panic: upboom 50% full " + t + "\n"}
+	case 3:
+		return errInfo{isErr: true, exact: "typed nil error", prefix: "typed nil error"}
 	}
 	return errInfo{}
 }
@@ -454,6 +478,8 @@ func runList[T any](spec ListSpec, mkValue func(tag int, payload string, isNil b
 			ms.data = []byte(data + "-wrong")
 		}
 		switch cs.MErr {
+		case 3:
+			ms.err = (*nilErr)(nil)
 		case 1:
 			ms.err = errors.New("boom 100%s " + strconv.Itoa(tag))
 		case 2:
@@ -469,6 +495,8 @@ func runList[T any](spec ListSpec, mkValue func(tag int, payload string, isNil b
 			us.payload = "different"
 		}
 		switch cs.UErr {
+		case 3:
+			us.err = (*nilErr)(nil)
 		case 1:
 			us.err = errors.New("uboom %!x " + strconv.Itoa(tag))
 		case 2:
@@ -615,6 +643,8 @@ func run(spec ListSpec, indices []int, second bool) (*recorder, *recorder, int, 
 		return runList(spec, func(tag int, p string, _ bool) UOnly { return UOnly{tag, p} }, indices, second)
 	case "PRecv":
 		return runList(spec, func(tag int, p string, _ bool) PRecv { return PRecv{tag, p} }, indices, second)
+	case "Both":
+		return runList(spec, func(tag int, p string, _ bool) Both { return &SP{tag, p} }, indices, second)
 	}
 	panic("unknown type " + spec.Type)
 }
@@ -623,7 +653,7 @@ var caseNo = regexp.MustCompile(`case (\d+) failed`)
 
 func hasIface(typ string, marshal bool) bool {
 	switch typ {
-	case "SV", "SP":
+	case "SV", "SP", "Both":
 		return true
 	case "MOnly":
 		return marshal
@@ -803,7 +833,7 @@ func truncateAll(ss []string) []string {
 // ---- generation ----------------------------------------------------------------------------------------------------------------
 
 var helpers = []string{"MarshalText", "UnmarshalText", "MarshalBinary", "UnmarshalBinary", "MarshalJSON", "UnmarshalJSON"}
-var typesAll = []string{"SV", "SP", "SV", "SP", "NoIface", "MOnly", "UOnly", "PRecv"}
+var typesAll = []string{"SV", "SP", "SV", "SP", "NoIface", "MOnly", "UOnly", "PRecv", "Both"}
 
 func genCase(rt *rapid.T) CaseSpec {
 	hookG := rapid.SampledFrom([]int{0, 0, 0, 0, 1, 1, 2, 3, 4, 5, 6})
@@ -814,9 +844,9 @@ func genCase(rt *rapid.T) CaseSpec {
 		Pred:       rapid.SampledFrom([]int{0, 0, 0, 1, 2, 3, 4, 5, 5, 6}).Draw(rt, "pred"),
 		PredHit:    rapid.Bool().Draw(rt, "predHit"),
 		MOut:       rapid.SampledFrom([]int{0, 0, 1, 2}).Draw(rt, "mOut"),
-		MErr:       rapid.SampledFrom([]int{0, 0, 1, 2}).Draw(rt, "mErr"),
+		MErr:       rapid.SampledFrom([]int{0, 0, 1, 2, 3}).Draw(rt, "mErr"),
 		UStore:     rapid.SampledFrom([]int{0, 0, 1, 2}).Draw(rt, "uStore"),
-		UErr:       rapid.SampledFrom([]int{0, 0, 1, 2}).Draw(rt, "uErr"),
+		UErr:       rapid.SampledFrom([]int{0, 0, 1, 2, 3}).Draw(rt, "uErr"),
 		NilValue:   rapid.IntRange(0, 9).Draw(rt, "nilValue") == 0,
 		EmptyData:  rapid.IntRange(0, 7).Draw(rt, "emptyData") == 0,
 	}
@@ -915,7 +945,7 @@ func TestCheck(t *testing.T) {
 				}
 			}
 		}
-		types := []string{"SV", "SP", "NoIface", "MOnly", "UOnly", "PRecv"}
+		types := []string{"SV", "SP", "NoIface", "MOnly", "UOnly", "PRecv", "Both"}
 		r.Parallel(int64(len(specs)), 16, func(w *vkit.W, lo, hi int64) {
 			for i := lo; i < hi; i++ {
 				for _, h := range helpers {
@@ -960,6 +990,7 @@ func TestCheck(t *testing.T) {
 			{Before: 2}, {After: 3}, {Before: 1, After: 1},
 			{Constraint: 1, Pred: 6, MErr: 1, MOut: 2}, {Constraint: 2, Pred: 5, UErr: 1, UStore: 2},
 			{After: 4}, {Before: 4, Constraint: 1}, {Constraint: 1, EmptyData: true, MOut: 2},
+			{MErr: 3, UErr: 3}, {MErr: 3, UErr: 3, MOut: 2, UStore: 2, Pred: 2, PredHit: true},
 			{Before: 5}, {Before: 6, After: 2}, {Before: 6, After: 3, MErr: 2, UErr: 2, Pred: 3, PredHit: true, UStore: 2}, // hooks that rewrite the case they are handed; nil result for empty data
 		}
 		np := int64(len(pal))
@@ -968,7 +999,7 @@ func TestCheck(t *testing.T) {
 			for k := lo; k < hi; k++ {
 				a, b := pal[k/np], pal[k%np]
 				for hi2, h := range helpers {
-					typ := []string{"SV", "SP", "PRecv"}[(int(k)+hi2)%3]
+					typ := []string{"SV", "SP", "PRecv", "Both"}[(int(k)+hi2)%4]
 					w.Eval(judge(ListSpec{Helper: h, Type: typ, Cases: []CaseSpec{a, b}, CustomHelper: k%3 == 0}, w))
 				}
 			}
